@@ -173,7 +173,24 @@ def oracle_tree(rep: Report, root, spec, akai, rng):
                     if err is not None or "was not found" in (out or ""):
                         rep.findings.append(Finding("ls-render-fails", {"akai": akai, "spec": spec, "path": p, "error": err, "out": (out or "")[:200]}))
                         return
+        # any other spelling is another path: two trailing separators do not address the item (two backslashes are ONE separator to the tokenizer: three are used)
+        for tail in ("//", "/" + chr(92), "///", chr(92) * 3):
+            p = "/".join(comps) + tail
+            got = lookup_real(root, p)
+            if not got.startswith("notfound"):
+                # (a child with a blank printed name would legitimately be found: not generated for these nodes)
+                kids = [c.safe_name for c in getattr(n, "children", [])] if isinstance(n, Traversable) else []
+                if not any(not k.strip() for k in kids):
+                    rep.findings.append(Finding("ls-other-path-accepted", {"akai": akai, "spec": spec, "path": p, "got": got}))
+                    return
+            rep.feat("doubled_separator_paths")
         rep.feat("roundtrips")
+    # separators alone are not a path to anything
+    for p in ("/", "\\", "//", "/\\"):
+        got = lookup_real(root, p)
+        if not got.startswith("notfound") and not any(not c.safe_name.strip() for c in root.children):
+            rep.findings.append(Finding("ls-other-path-accepted", {"akai": akai, "spec": spec, "path": p, "got": got}))
+            return
     # arbitrary strings never raise
     for _ in range(10):
         p = rng.choice(["", "/", "\\", "//", "a/b/c", "A:", "a:", " / ", "\\\\\\", "é/ü", "x" * 300, "\x00", "A/", "../.."]) + FN.random_name(rng, "nasty")
